@@ -57,3 +57,7 @@ func VerifGenerateOutput(nodeSet [][]*Node, query parser.Query) [][]interface{} 
 func VerifNodeHasAccess(n *Node) bool { return n.hasAccess }
 
 func VerifNodeIsJavaSourceFile(n *Node) bool { return n.isJavaSourceFile }
+
+func VerifGenerateProxyEnvForSet(nodeSet []*Node, query parser.Query) map[string]interface{} {
+	return generateProxyEnvForSet(nodeSet, query)
+}
